@@ -99,11 +99,64 @@ ACCESSORS = ['get_type', 'get_name', 'get_alias', 'get_real_name', 'get_parent_n
              'get_typecast', 'get_ordering', 'is_wildcard', 'get_array_indices', 'is_multiline', 'get_sublists', 'flatten', 'token_first']
 
 
+# second red-team pass: what each read-only accessor promises to return (docstrings of sqlparse/sql.py) — `None` where a str is promised, a bare
+# token where a list is promised etc. is a failure just like an escaping exception
+def _is_tok(x):
+    return isinstance(x, sql.Token)
+RESULT_OK = {
+    'get_type': lambda r: isinstance(r, str) and r != '',
+    'get_name': lambda r: r is None or isinstance(r, str), 'get_alias': lambda r: r is None or isinstance(r, str),
+    'get_real_name': lambda r: r is None or isinstance(r, str), 'get_parent_name': lambda r: r is None or isinstance(r, str),
+    'get_typecast': lambda r: r is None or isinstance(r, str), 'get_ordering': lambda r: r is None or isinstance(r, str),
+    'has_alias': lambda r: isinstance(r, bool), 'is_wildcard': lambda r: isinstance(r, bool),
+    'get_identifiers': lambda r: all(_is_tok(x) for x in r), 'get_parameters': lambda r: isinstance(r, list) and all(_is_tok(x) for x in r),
+    'get_window': lambda r: r is None or _is_tok(r),
+    'get_cases': lambda r: isinstance(r, list) and all(isinstance(p, tuple) and len(p) == 2 and (p[0] is None or isinstance(p[0], list)) and isinstance(p[1], list) for p in r),
+    'get_array_indices': lambda r: all(isinstance(x, list) for x in r), 'get_sublists': lambda r: all(isinstance(x, sql.TokenList) for x in r),
+    'flatten': lambda r: all(_is_tok(x) and not x.is_group for x in r), 'token_first': lambda r: r is None or _is_tok(r),
+}
+
+
+def accessors_with_arguments(ctx, text, st, n):
+    """the accessors and navigation helpers that take arguments, with every valid argument: none may raise, whatever the shape of the node"""
+    import io
+    calls = [('get_cases(skip_ws=True)', lambda: n.get_cases(skip_ws=True)) if hasattr(n, 'get_cases') else None,
+             ('token_first(skip_ws=False)', lambda: n.token_first(skip_ws=False)), ('token_first(skip_cm=True)', lambda: n.token_first(skip_cm=True)),
+             ('token_first(skip_ws=False, skip_cm=True)', lambda: n.token_first(skip_ws=False, skip_cm=True)),
+             ('repr', lambda: repr(n)), ('str', lambda: str(n)), ('_pprint_tree', lambda: n._pprint_tree(f=io.StringIO())), ('_pprint_tree(max_depth=1)', lambda: n._pprint_tree(max_depth=1, f=io.StringIO())),
+             ('within(Statement)', lambda: n.within(sql.Statement)), ('has_ancestor(stmt)', lambda: n.has_ancestor(st)), ('is_child_of(stmt)', lambda: n.is_child_of(st)),
+             ('token_next_by(i=Identifier)', lambda: n.token_next_by(i=sql.Identifier)), ('token_next_by(m=Punctuation ,)', lambda: n.token_next_by(m=(T.Punctuation, ','))),
+             ('token_next_by(t=Keyword, idx=0, end=2)', lambda: n.token_next_by(t=T.Keyword, idx=0, end=min(2, len(n.tokens)))),
+             ('token_matching', lambda: n.token_matching(lambda t: t.is_keyword, 0)), ('token_not_matching', lambda: n.token_not_matching(lambda t: t.is_whitespace, 0)),
+             ('match(regex)', lambda: [t.match(T.Keyword, (r'^SEL', 'FROM$'), regex=True) for t in n.tokens[:3]]),
+             ('match(values)', lambda: [t.match(T.Punctuation, ('(', ',')) for t in n.tokens[:3]])]
+    for i in range(min(len(n.tokens), 6)):
+        for skip_ws in (True, False):
+            for skip_cm in (False, True):
+                calls.append(('token_next(%d, %s, %s)' % (i, skip_ws, skip_cm), lambda i=i, a=skip_ws, b=skip_cm: n.token_next(i, skip_ws=a, skip_cm=b)))
+                calls.append(('token_prev(%d, %s, %s)' % (i, skip_ws, skip_cm), lambda i=i, a=skip_ws, b=skip_cm: n.token_prev(i, skip_ws=a, skip_cm=b)))
+        calls.append(('token_index(child %d)' % i, lambda i=i: n.token_index(n.tokens[i])))
+        calls.append(('token_index(child %d, start=child 0)' % i, lambda i=i: n.token_index(n.tokens[i], n.tokens[0])))
+    for c in calls:
+        if c is None:
+            continue
+        name, f = c
+        ctx.evaluations += 1
+        try:
+            f()
+        except SQLParseError:
+            pass
+        except Exception as e:
+            ctx.fail('%s escaped from %s.%s' % (type(e).__name__, type(n).__name__, name), text, observed=repr(e)[:160], required='result or SQLParseError', node=str(n)[:80], accessor=name)
+            return
+
+
 def accessors(ctx, text, stmts):
     for st in stmts:
         stack = [st]
         while stack:
             n = stack.pop()
+            accessors_with_arguments(ctx, text, st, n)
             for name in ACCESSORS:
                 f = getattr(n, name, None)
                 if f is None:
@@ -112,7 +165,11 @@ def accessors(ctx, text, stmts):
                 try:
                     r = f()
                     if hasattr(r, '__next__'):
-                        list(r)
+                        r = list(r)
+                    ok = RESULT_OK.get(name)
+                    if ok is not None and not ok(r):
+                        ctx.fail('%s.%s() returned %s where its documentation promises another kind of result' % (type(n).__name__, name, type(r).__name__), text,
+                                 observed=repr(r)[:120], required='documented result type', node=str(n)[:80], accessor=name)
                 except SQLParseError:
                     pass
                 except Exception as e:
@@ -234,7 +291,9 @@ def degenerate(ctx):
         accessors(ctx, text, stmts)
         for st in stmts:
             try:
-                st.get_type()
+                r = st.get_type()
+                if not isinstance(r, str):
+                    ctx.fail('Statement.get_type() returned %s where a str is promised' % type(r).__name__, text, observed=repr(r), required='str', accessor='get_type')
             except SQLParseError:
                 pass
             except Exception as e:
